@@ -47,3 +47,72 @@ def executable_sequences(problem, insts, L, cap_nodes=3000, want=24):
             if r.status == seqsem.OKAY:
                 stack.append((r.state, path + [(a, args)]))
     return goal, nongoal
+
+
+def fluent_defaults(problem):
+    """{fluent name: python value of the per-fluent default} for the fluents that have one."""
+    from vk.ref.evalx import const_value
+
+    out = {}
+    for f, dv in problem.fluents_defaults.items():
+        try:
+            out[f.name] = const_value(dv)
+        except Exception:
+            pass
+    return out
+
+
+def toggle_walk(problem, insts, steps, rng, rs0):
+    """Reference-guided executable walk that manufactures raise-then-reset histories.
+
+    Yields nothing; returns [(action, args, Succ)] (every Succ is OKAY). The walk prefers (a) steps that put a changed ground
+    fluent back to its per-fluent default (or, failing that, to its initial value), then (b) steps that leave such "reset" ground
+    fluents alone, so that the reset is the LAST write when a difference-based state representation is flattened or merged;
+    otherwise a changing step; otherwise any applicable step."""
+    dflt = fluent_defaults(problem)
+    out, s = [], rs0
+    protected = set()
+    for _ in range(steps):
+        cands = [(a, args, r) for a, args in insts for r in [seqsem.succ(problem, s, a, args)] if r.status == seqsem.OKAY]
+        if not cands:
+            break
+        changing = [c for c in cands if c[2].info.get("changed")]
+
+        def resets_of(c, ref):
+            return {k for k in c[2].info["changed"] if ref(k) is not None and c[2].state.get(k) == ref(k) and s.get(k) != ref(k)}
+
+        r_def = [c for c in changing if resets_of(c, lambda k: dflt.get(k[0]))]
+        r_ini = [c for c in changing if resets_of(c, lambda k: rs0.get(k))]
+        quiet = [c for c in changing if not (set(c[2].info["changed"]) & protected)]
+        x = rng.random()
+        if r_def and x < 0.55:
+            pool = r_def
+        elif r_ini and x < 0.65:
+            pool = r_ini
+        elif quiet and x < 0.92:
+            pool = quiet
+        elif changing and x < 0.97:
+            pool = changing
+        else:
+            pool = cands
+        c = rng.choice(pool)
+        protected -= set(c[2].info.get("changed", ()))
+        protected |= resets_of(c, lambda k: dflt.get(k[0])) if c[2].info.get("changed") else set()
+        out.append(c)
+        s = c[2].state
+    return out
+
+
+def plain_walk(problem, insts, steps, rng, rs0):
+    """Reference-guided executable walk: one random reference-applicable instance per step, 85 % of them state-changing."""
+    out, s = [], rs0
+    for _ in range(steps):
+        cands = [(a, args, r) for a, args in insts for r in [seqsem.succ(problem, s, a, args)] if r.status == seqsem.OKAY]
+        changing = [c for c in cands if c[2].info.get("changed")]
+        pool = changing if changing and rng.random() < 0.85 else cands
+        if not pool:
+            break
+        c = rng.choice(pool)
+        out.append(c)
+        s = c[2].state
+    return out
